@@ -481,9 +481,9 @@ def component_level(v, seg, name, ref, spath, res, point):
         except Exception as e:
             res.violation('component-edit-raises|%s|%s|%s' % (v, seg, exc_class(e)), 'component-level edit of %s.%s in %s (v%s): %s: %s' % (fr.name, cr.name, name, v, exc_class(e), e), pt, 3)
             continue
-        res.evaluations += 6
-        res.transitions += 12
-        res.validated += 5
+        res.evaluations += 8
+        res.transitions += 16
+        res.validated += 7
         for how in ('traversal-read', 'traversal-write', 'add-helpers', 'parse'):
             if obs[how] != new_dt:
                 res.violation('profile-ignored|component-datatype|%s|v%s' % (how, v), '%s.%s of %s (v%s, host %s): created through %s has datatype %s, the profile says %s'
@@ -572,15 +572,25 @@ def field_unit(v, seg, res):
             m = Message(name, version=v, reference=eprof)
             m.value = text
             observed['message-value'] = getattr(nav(m), fr.name.lower())[0].datatype
+            # (f) assignment of an element that belongs to a message built without the profile (it is copied)
+            m = Message(name, version=v, reference=eprof)
+            par = m
+            for g in spath[:-1]:
+                par = par.add_group(g)
+            setattr(par, seg.lower(), nav(std))
+            observed['element-copy-segment'] = getattr(getattr(par, seg.lower()), fr.name.lower())[0].datatype
+            m = Message(name, version=v, reference=eprof)
+            setattr(nav(m), fr.name.lower(), getattr(nav(std), fr.name.lower())[0])
+            observed['element-copy-field'] = getattr(nav(m), fr.name.lower())[0].datatype
             # standard run keeps the standard datatype
             observed['standard'] = getattr(nav(std), fr.name.lower())[0].datatype
         except Exception as e:
             res.violation('field-edit-raises|%s|%s|%s' % (v, seg, exc_class(e)), 'datatype swap of %s in %s (v%s): %s: %s (observed so far %r)' % (fr.name, name, v, exc_class(e), e, observed), pt, 3)
             continue
-        res.evaluations += 6
-        res.transitions += 12
-        res.validated += 5
-        for how in ('traversal-read', 'traversal-write', 'add-helpers', 'parse', 'text-assignment', 'message-value'):
+        res.evaluations += 8
+        res.transitions += 16
+        res.validated += 7
+        for how in ('traversal-read', 'traversal-write', 'add-helpers', 'parse', 'text-assignment', 'message-value', 'element-copy-segment', 'element-copy-field'):
             if observed[how] != new_dt:
                 res.violation('profile-ignored|datatype|%s|%s' % (how, 'v' + v), '%s of %s (v%s, host %s): created through %s has datatype %s, the profile says %s'
                               % (fr.name, seg, v, name, how, observed[how], new_dt), pt, 3)
